@@ -67,7 +67,7 @@ func NewHub() *Hub {
 }
 
 func (h *Hub) SetController(c Controller) { h.ctrl.Store(&ctrlBox{c}) }
-func (h *Hub) Controller() Controller      { return h.ctrl.Load().(*ctrlBox).c }
+func (h *Hub) Controller() Controller     { return h.ctrl.Load().(*ctrlBox).c }
 
 func (h *Hub) Trace(on bool) {
 	h.mu.Lock()
